@@ -78,6 +78,13 @@ func c03Property(t *rapid.T) {
 	rec := stat.For("C03")
 	o := gen.CmdOpts{Unicode: rapid.IntRange(0, 2).Draw(t, "unicode") == 0, Irregular: true}
 	cmds, cls := gen.DB(t, o, []int{1, 2, 4, 10, 1})
+	ubiq := ""
+	if rapid.IntRange(0, 3).Draw(t, "ubiquitous") == 0 {
+		if len(cmds) < 25 && rapid.Bool().Draw(t, "pad-to-25+") {
+			cmds = append(cmds, gen.Bulk(t, rapid.IntRange(25, 60).Draw(t, "pad-n"), o)...)
+		}
+		ubiq = gen.Ubiquitous(t, cmds) // a word in (nearly) every entry: the smallest idf there is
+	}
 	db, hist := buildByHistory(t, cmds, o)
 	if msg := sameCommands(db, cmds); msg != "" {
 		t.Fatalf("history %s: %s", hist, msg)
@@ -87,6 +94,9 @@ func c03Property(t *rapid.T) {
 		qcls = append(qcls, "unicode", "unicode")
 	}
 	q, qc := gen.Query(t, cmds, qcls)
+	if ubiq != "" && rapid.Bool().Draw(t, "ask-ubiquitous") {
+		q = rapid.SampledFrom([]string{ubiq, ubiq + " " + q, q + " " + ubiq}).Draw(t, "ubiquitous-query")
+	}
 	opt := database.SearchOptions{Limit: len(cmds) + rapid.IntRange(1, 5).Draw(t, "extra"), AllPlatforms: true,
 		PipelineOnly: rapid.IntRange(0, 3).Draw(t, "ponly") == 0, TopTermsCap: rapid.SampledFrom([]int{0, 0, 10, 20}).Draw(t, "cap")}
 	toks := gen.Tokens(cmds)
@@ -108,6 +118,7 @@ func c03Property(t *rapid.T) {
 	docs := ref.Index(cmds)
 	terms := ref.Tokenize(q)
 	p := hookParams(db)
+	p.MinIDF = 0 // the statement has no idf cut-off: every content word of the query counts, however common
 	var elig func(int) bool
 	if opt.PipelineOnly {
 		elig = func(i int) bool { return ref.IsPipeline(&cmds[i]) }
@@ -214,6 +225,14 @@ func c03Property(t *rapid.T) {
 	if ref.LowersToASCII(q) {
 		labels = append(labels, "lowers-to-ascii-rune")
 	}
+	if ubiq != "" && len(cmds) >= 25 {
+		for _, x := range terms {
+			if x == ubiq {
+				labels = append(labels, "ubiquitous-term-25+")
+				break
+			}
+		}
+	}
 	nontrivial := len(got) > 0 && len(got) < len(cmds)
 	keys := make([]int, 0, len(got))
 	for k := range got {
@@ -230,6 +249,7 @@ func TestC03_Scan(t *testing.T) {
 		r.RequireShare("history:"+h, 0.10)
 	}
 	r.RequireShare("multi-field-hit", 0.20)
+	r.RequireShare("ubiquitous-term-25+", 0.02)
 	rapid.Check(t, c03Property)
 }
 
@@ -243,6 +263,7 @@ func TestC03_Shipped(t *testing.T) {
 	cmds := cloneCmds(db.Commands)
 	docs := ref.Index(cmds)
 	p := hookParams(db)
+	p.MinIDF = 0
 	rapid.Check(t, func(t *rapid.T) {
 		off := rapid.IntRange(0, len(cmds)-40).Draw(t, "off")
 		q, qc := gen.Query(t, cmds[off:off+30], []gen.QueryClass{"vocab", "vocab", "mixed", "nlp"})
